@@ -154,6 +154,29 @@ func runC18(o *out, thorough bool, r *rng, _ []string) map[string]interface{} {
 		o.run(1801, fs, true)
 		o.countN("ops", len(fs)-1)
 	}
+	// pool hygiene across the library's own use: after MESSAGE-INTEGRITY computations (which take an object
+	// from the pool and give it back) two simultaneously held objects are distinct and both are right
+	for i := 0; i < 200; i++ {
+		m := stun.New()
+		_ = m.Build(stun.BindingRequest, stun.TransactionID, stun.MessageIntegrity(r.hmacKey()))
+		_ = stun.MessageIntegrity(r.hmacKey()).Check(m)
+		k1, k2 := r.hmacKey(), r.hmacKey()
+		h1, h2 := stun.VerifAcquireSHA1(k1), stun.VerifAcquireSHA1(k2)
+		r1, r2 := hmac.New(sha1.New, k1), hmac.New(sha1.New, k2)
+		for k := 0; k < 3; k++ {
+			p1, p2 := r.bytes(r.intn(100)), r.bytes(r.intn(100))
+			h1.Write(p1)
+			r1.Write(p1)
+			h2.Write(p2)
+			r2.Write(p2)
+		}
+		if !bytes.Equal(h1.Sum(nil), r1.Sum(nil)) || !bytes.Equal(h2.Sum(nil), r2.Sum(nil)) {
+			o.fail("pool-handed-out-object-in-use", fmt.Sprintf("x after MESSAGE-INTEGRITY AddTo/Check, keys %s %s", fHex(k1), fHex(k2)))
+		}
+		stun.VerifPutSHA1(h1)
+		stun.VerifPutSHA1(h2)
+		o.count("pool-hygiene")
+	}
 	// concurrent use of the pool: 16 goroutines, thousands of histories compared with crypto/hmac
 	// (run under the race detector in the thorough tier)
 	workers, per := 16, 300
